@@ -896,6 +896,12 @@ class _ExecutorManagerThread(threading.Thread):
                 except ProcessLookupError:  # pragma: no cover
                     pass
 
+        # Nobody will read the call queue any more. Close our handle of its
+        # read end: a feeder thread blocked while writing a large task to the
+        # full pipe then gets EPIPE and ends, instead of staying forever with
+        # the queue, its pipe and its semaphores (see cpython gh-94777).
+        self.call_queue._reader.close()
+
     def shutdown_workers(self):
         # shutdown all workers in self.processes
 
